@@ -229,7 +229,7 @@ func main() {
 	run(r, []tun{{"tcp://a:1", ""}, {"", "h1"}}, []string{"h1", "a.b"}, false, []string{"gen0"})
 	run(r, []tun{{"tcp://a:1", "x"}, {"tcp://b:1", "x"}}, []string{"x"}, false, nil)
 	run(r, []tun{{"tcp://a:1", ""}}, nil, true, []string{"gen0"})
-	n := 20_000
+	n := 8_000
 	if r.Thorough() {
 		n = 150_000
 	}
